@@ -163,6 +163,18 @@ fn entropy_calls(spec: &Spec, rng: &mut ChaCha8Rng, out: &mut Out) {
             Err(p) => json!({"t": "ent", "m": "scalars", "sk": sk, "src": sv, "a": limbs64(0), "b": limbs64(0), "r": limbs64(0), "used": 0, "panic": p}),
         });
     }
+    // large requested lengths (powers of two and their neighbours up to 16 MiB) on a few sources
+    let big: Vec<Src> = vec![Src::Arb(vec![]), Src::Arb(vec![7; 40]), Src::Arb(vec![0xff; 300]), Src::Rand(1), Src::Rand(rng.random())];
+    for src in &big {
+        let (sk, sv) = src.json();
+        for &len in &[255usize, 256, 257, 4095, 4096, 65535, 65536, 65537, (1 << 20) - 1, 1 << 20, (1 << 20) + 1, (1 << 24) + 3] {
+            let r = with_src(src, |g| g.gen_bytes(len));
+            out.put(match r {
+                Ok((v, used)) => json!({"t": "ent", "m": "gen_bytes", "sk": sk, "src": sv, "a": limbs64(len as u64), "b": limbs64(0), "r": limbs64(v.len() as u64), "used": used, "panic": ""}),
+                Err(p) => json!({"t": "ent", "m": "gen_bytes", "sk": sk, "src": sv, "a": limbs64(len as u64), "b": limbs64(0), "r": limbs64(0), "used": 0, "panic": p}),
+            });
+        }
+    }
 }
 
 fn mutator_by_id(id: usize, unsafe_mode: bool) -> Box<dyn Mutator> {
